@@ -6,6 +6,16 @@ for l in open('/verif/properties.jsonl'):
     p = json.loads(l)
     if p['id'] == pid: break
 wt = f"/tmp/seed-{pid}-{tag}"
+import glob, os
+prev = []
+for d in sorted(glob.glob(f"/verif/seeded/{pid}-*")):
+    rd = os.path.join(d, "README.md")
+    if os.path.exists(rd):
+        txt = [l.strip() for l in open(rd) if l.strip() and not l.startswith('#')]
+        prev.append(" ".join(txt[:3])[:400])
+avoid = ""
+if prev and tag != "a":
+    avoid = "\nEarlier rounds already produced the following changes for this property. Yours must use DIFFERENT mechanisms and different source locations (do not re-do these, and do not produce trivial variants of them):\n" + "\n".join(f"  - {x}" for x in prev) + "\nLook for less obvious places: other configurations (reserved > 0, minimum segment size 0 or large, maximum alignment, plain vs unified layout, Vec / anonymous mmap / file backends), other API entry points (owned handles, to_owned, typed allocations of unusual layouts, zero-sized requests, explicit dealloc, set_minimum_segment_size, increase_discarded, discard_freelist, clear, rewind), state that is only reached after several operations, the second of two cooperating code paths, or the sync vs unsync twin of a function.\n"
 print(f"""You are helping to evaluate a verification framework for the Rust repository al8n/rarena (crate `rarena-allocator`: a lock-free arena allocator with CAS-based size-ordered free lists, sync and unsync variants, Vec / anonymous-mmap / file-mmap backing). The sandbox has NO network; cargo must always be run with `--offline`.
 
 Set-up (do this first): create your own scratch git worktree and work ONLY inside it:
@@ -17,6 +27,7 @@ The property (of the library's observable behaviour):
     Statement: {p['statement']}
     Quantifier: {p['quantifier']['text']}
 
+{avoid}
 Your task: produce TWO independent changes (call them A and B) to the library source under {wt}/rarena-allocator/src, each of which BREAKS this property while
   (1) the workspace still compiles, and
   (2) the repository's existing test suite still passes completely:  cd {wt} && cargo test --workspace --no-fail-fast --offline   (68 unit tests + doctests; run it and confirm 0 failures; it is also worth running `cargo test -p rarena-allocator --features memmap --offline` to see you did not break the file-backed tests, but only the first command is mandatory).
